@@ -816,6 +816,9 @@ def _group_func_wrap(
             # Unchunk the values and follow this path
             values = np.concatenate(values)
             values_are_chunked = False
+        else:
+            # _chunk_groupby_args recognises chunked values by this type
+            values = NumbaList(values)
     else:
         values = values[0]
 
